@@ -136,4 +136,19 @@ def sourceShape : Bool :=
   decide (forward_bytes_order.idx_self___consumed_____len < 1000) &&
   decide (forward_bytes_order.idx_read_bytes = 1000)
 
+/-- source fact: `fill_buffer`, `peek`, `next` and `read_exact` take bytes from the stream through
+    `read_exact` and through nothing else (no `read`, whose short counts they would have to handle, no
+    `read_to_end`, no `bytes`) — so a stream is to the io reader what it answers to sequences of `read_exact`
+    calls (`Amqp.Chunks.chunks_are_one_stream`) -/
+def streamOnlyThroughReadExact : Bool :=
+  open Amqp.Gen.IoReadK in
+  decide (fill_buffer_stream.idx_self___reader___read_exact__ < 1000) && decide (fill_buffer_stream.idx_self___reader___read__ = 1000) &&
+  decide (fill_buffer_stream.idx_self___reader___read_to_end__ = 1000) && decide (fill_buffer_stream.idx_self___reader___bytes__ = 1000) &&
+  decide (peek_stream.idx_self___reader___read_exact__ < 1000) && decide (peek_stream.idx_self___reader___read__ = 1000) &&
+  decide (peek_stream.idx_self___reader___read_to_end__ = 1000) && decide (peek_stream.idx_self___reader___bytes__ = 1000) &&
+  decide (next_stream.idx_self___reader___read_exact__ < 1000) && decide (next_stream.idx_self___reader___read__ = 1000) &&
+  decide (next_stream.idx_self___reader___read_to_end__ = 1000) && decide (next_stream.idx_self___reader___bytes__ = 1000) &&
+  decide (read_exact_stream.idx_self___reader___read_exact__ < 1000) && decide (read_exact_stream.idx_self___reader___read__ = 1000) &&
+  decide (read_exact_stream.idx_self___reader___read_to_end__ = 1000) && decide (read_exact_stream.idx_self___reader___bytes__ = 1000)
+
 end Amqp.IoRead
